@@ -27,6 +27,15 @@ CHECKS = {
             "under a release build (no debug assertions / overflow checks) and the digests of all encodings are compared.",
             "No counterexample among the generated and constructed cases. The 268,435,455-byte accepted side is only built in the thorough tier. " + TRUST,
             "DESIGN.md §7 C02"),
+    "C04": ("exploration",
+            "grammar-based and mutation-based generation of complete frames (proptest over choice tapes); differential against an independent reference decoder",
+            "Complete, minimally encoded frames of both families are generated from the wire-level model: well-formed frames in every "
+            "spelling the grammar allows, the same with one to three injected catalogue malformations, and byte-mutated bodies with a "
+            "re-synthesised header. The strict poll decoder must accept exactly when the reference decoder (MQTT grammar + pinned "
+            "leniencies) accepts, and on acceptance the normalised field values, total and body bytes must agree. Every reject class "
+            "of the reference decoder has to be reached or the run reports broken machinery.",
+            "No disagreement among the generated frames. The reference decoder and the pinned grammar (DESIGN.md §5) are the trusted oracle. " + TRUST,
+            "DESIGN.md §7 C04"),
     "C07": ("exploration",
             "property-based testing (proptest over choice tapes) x enumeration of cut positions; classification oracle",
             "For generated valid packets every strict prefix of the encoding (all cut positions for encodings up to 400 bytes, "
@@ -103,6 +112,14 @@ CHECKS = {
             "construction fails exactly for 0. The finite domain is enumerated completely (evidence: exhaustive = true).",
             "The cycle model is trusted; the check runs in a build with overflow checks so a wrapping bug also shows as a panic.",
             "DESIGN.md §7 C19"),
+    "C20": ("exploration",
+            "catalogue-driven mutation of generated valid packets (proptest over choice tapes); expected error variant and payload from the catalogue",
+            "Every applicable entry of a 30-entry malformation catalogue is applied to generated valid packets at every site where it "
+            "applies (each string field, property, code byte, length); the blocking, async and poll decoders must return exactly "
+            "the error variant and payload the catalogue documents (with the stated poll/blocking exception for inner lengths past "
+            "the frame end). Expectations never come from running another front-end.",
+            "No misclassification among the generated (packet, entry, site) cases; the catalogue's expectations (DESIGN.md Appendix C) are trusted. " + TRUST,
+            "DESIGN.md §7 C20"),
 }
 
 NOT_YET = "check not built yet in this round (machinery under construction; see DESIGN.md for the plan)"
